@@ -50,6 +50,8 @@ impl<'a> BinDecoder<'a> {
 
     /// Pop one byte from the buffer
     pub fn pop(&mut self) -> Result<Restrict<u8>, DecodeError> {
+        #[cfg(hickory_dns_verif)]
+        verif::tick();
         if let Some((first, remaining)) = self.remaining.split_first() {
             self.remaining = remaining;
             return Ok(Restrict::new(*first));
@@ -79,6 +81,8 @@ impl<'a> BinDecoder<'a> {
 
     /// Peed one byte forward, without moving the current index forward
     pub fn peek(&self) -> Option<Restrict<u8>> {
+        #[cfg(hickory_dns_verif)]
+        verif::tick();
         Some(Restrict::new(*self.remaining.first()?))
     }
 
@@ -143,6 +147,8 @@ impl<'a> BinDecoder<'a> {
     ///
     /// The slice of the specified length, otherwise an error
     pub fn read_slice(&mut self, len: usize) -> Result<Restrict<&'a [u8]>, DecodeError> {
+        #[cfg(hickory_dns_verif)]
+        verif::tick();
         if len > self.remaining.len() {
             return Err(DecodeError::InsufficientBytes);
         }
@@ -428,5 +434,40 @@ mod tests {
 
         // this should fail
         assert!(decoder.slice_from(10).is_err());
+    }
+}
+
+/// Verification hook (off by default): counts decoder primitive operations per thread.
+#[cfg(hickory_dns_verif)]
+pub mod verif {
+    use core::cell::Cell;
+
+    std::thread_local! {
+        static STEPS: Cell<u64> = const { Cell::new(0) };
+        static LIMIT: Cell<u64> = const { Cell::new(u64::MAX) };
+    }
+
+    /// Reset the counter and set a hard limit; exceeding it panics with a recognisable message.
+    pub fn reset(limit: u64) {
+        STEPS.with(|s| s.set(0));
+        LIMIT.with(|l| l.set(limit));
+    }
+
+    /// Steps since the last reset.
+    pub fn steps() -> u64 {
+        STEPS.with(|s| s.get())
+    }
+
+    #[inline]
+    pub(super) fn tick() {
+        let n = STEPS.with(|s| {
+            let n = s.get() + 1;
+            s.set(n);
+            n
+        });
+        if n > LIMIT.with(|l| l.get()) {
+            LIMIT.with(|l| l.set(u64::MAX));
+            panic!("hickory_dns_verif: decoder step limit exceeded");
+        }
     }
 }
